@@ -13,6 +13,8 @@ func hashIntArray(in []int) int {
 	}
 	h := fnv.New64a()
 	v, _ := h.Write(tmp)
+	// Write returns the number of bytes written, which is the same for all inputs of equal length: the hash is the sum
+	v = int(h.Sum64())
 	return v
 }
 
